@@ -67,10 +67,17 @@ func c02GenPkg(rt *rapid.T, body string) ec.HMsg {
 	return ec.HMsg{Kind: "addpkg", Path: "gno.land/r/gen/" + name, Body: fmt.Sprintf(body, name)}
 }
 
+// c02RunImport is a script that imports a generated package and calls it (the
+// import is type-checked, so it goes through the keeper's type-check cache).
+func c02RunImport(path string) ec.HMsg {
+	name := path[strings.LastIndex(path, "/")+1:]
+	return ec.HMsg{Kind: "run", Body: "package main\n\nimport \"" + path + "\"\n\nfunc main(cur realm) {\n\tprintln(" + name + ".Add(cross(cur), 2))\n}\n"}
+}
+
 // c02Good draws a message that writes state and succeeds in ordinary states.
 func c02Good(rt *rapid.T, nacc int) ec.HMsg {
 	key := func() string { return rapid.StringMatching("[a-d]").Draw(rt, "k") }
-	switch rapid.IntRange(0, 13).Draw(rt, "good") {
+	switch rapid.IntRange(0, 15).Draw(rt, "good") {
 	case 0:
 		return c02Call(ec.PathCtr, "Inc", axItoa(rapid.IntRange(1, 9).Draw(rt, "n")))
 	case 1:
@@ -95,6 +102,10 @@ func c02Good(rt *rapid.T, nacc int) ec.HMsg {
 		return c02Call(ec.PathCtr, "Trim", axItoa(rapid.IntRange(1, 3).Draw(rt, "n")))
 	case 11:
 		return ec.HMsg{Kind: "run", Body: c02RunWrite}
+	case 12:
+		return c02RunImport("gno.land/r/gen/p" + axItoa(rapid.IntRange(0, 3).Draw(rt, "pn")))
+	case 13:
+		return c02Call("gno.land/r/gen/p"+axItoa(rapid.IntRange(0, 3).Draw(rt, "pn")), "Add", axItoa(rapid.IntRange(0, 9).Draw(rt, "n")))
 	default:
 		return c02GenPkg(rt, c02GenBodies[rapid.IntRange(0, len(c02GenBodies)-1).Draw(rt, "body")])
 	}
@@ -623,10 +634,9 @@ func c02ExecSeen(vctx *vk.Ctx, c c02Case, seen map[string]bool) error {
 	for _, m := range c.T.Msgs {
 		if m.Kind == "addpkg" && !probed[m.Path] {
 			probed[m.Path] = true
-			name := m.Path[strings.LastIndex(m.Path, "/")+1:]
 			follow = append(follow,
 				axTx{Signer: c.T.Signer, Fee: axFee, Gas: c.T.Gas, Msgs: []ec.HMsg{c02Call(m.Path, "Add", "1")}},
-				axTx{Signer: c.T.Signer, Fee: axFee, Gas: c.T.Gas, Msgs: []ec.HMsg{{Kind: "run", Body: "package main\n\nimport \"" + m.Path + "\"\n\nfunc main(cur realm) {\n\tprintln(" + name + ".Add(cross(cur), 2))\n}\n"}}})
+				axTx{Signer: c.T.Signer, Fee: axFee, Gas: c.T.Gas, Msgs: []ec.HMsg{c02RunImport(m.Path)}})
 		}
 	}
 	ctx.ClassIf(len(probed) > 0, "follow-up-probes-package-of-failed-T")
@@ -811,6 +821,7 @@ func c02FixedCases() []c02Case {
 		mk(c02GnoPanic, 2, push, inc, c02Call(ec.PathMulti, "BothThenBoom", "q", "1")),
 		mk(c02GnoPanic, 1, both, pkg("package %s\n\nvar X = []int{1}\n\nfunc init() { X = append(X, 2); panic(\"init panic\") }\n")),
 		mk(c02GoPanic, 1, set, c02Call(ec.PathCtr, "Nope"), inc),
+		mk(c02GnoPanic, 3, inc, pkg(c02GenBodies[0]), c02RunImport("gno.land/r/gen/p1"), c02Call(ec.PathCtr, "Boom", "1")),
 		mk(c02Deposit, 1, inc, ec.HMsg{Kind: "call", Pkg: ec.PathKV, Fn: "Push", Args: []string{"a", "zzzzzzzzzzzzzzzzzzzzzzzzzzzzzz"}, Dep: 1}),
 		mk(c02Deposit, 1, both, ec.HMsg{Kind: "addpkg", Path: "gno.land/r/gen/p1", Body: fmt.Sprintf(c02GenBodies[2], "p1"), Dep: 1}),
 		mk(c02TxOOG, 1, inc, both, set),
